@@ -142,8 +142,10 @@ class TypeEnv:
                     self.vars[x.target.id] = ann_type(prog, self.mod, x.annotation)
                 elif isinstance(x, ast.Assign) and len(x.targets) == 1:
                     t = x.targets[0]
-                    if isinstance(t, ast.Name) and self.vars.get(t.id) is None:
-                        self.vars[t.id] = self.type_of(x.value)
+                    if isinstance(t, ast.Name) and self.vars.get(t.id) in (None, ("list", None)):
+                        nt = self.type_of(x.value)
+                        if nt is not None or t.id not in self.vars:
+                            self.vars[t.id] = nt
                     elif isinstance(t, ast.Tuple):
                         vt = self.type_of(x.value)
                         if vt is not None and vt[0] == "tuple":
@@ -162,7 +164,9 @@ class TypeEnv:
 
     def _bind_target(self, target: ast.AST, et: T, it: ast.AST) -> None:
         if isinstance(target, ast.Name):
-            if self.vars.get(target.id) is None:
+            if self.vars.get(target.id) is None and et is not None:
+                self.vars[target.id] = et
+            elif target.id not in self.vars:
                 self.vars[target.id] = et
         elif isinstance(target, ast.Tuple):
             # enumerate(x) / zip / items()
@@ -288,3 +292,105 @@ def class_has_attr(prog: Program, ci: ClassInfo, name: str) -> bool:
                         x.attr == name and isinstance(x.value, ast.Name) and x.value.id == "self":
                     return True
     return False
+
+
+# ------------------------------------------------------------ Optional value types (G5)
+_VALUE_TOKENS = {"int", "float", "str", "bytes", "bytearray", "AtomicOdxType", "ParameterValue",
+                 "ComplexValue"}
+
+
+def _members(ann: ast.AST) -> List[ast.AST]:
+    if isinstance(ann, ast.Constant) and isinstance(ann.value, str):
+        try:
+            return _members(ast.parse(ann.value, mode="eval").body)
+        except SyntaxError:
+            return [ann]
+    if isinstance(ann, ast.Subscript):
+        base = ast.unparse(ann.value).split(".")[-1]
+        sl = ann.slice
+        args = list(sl.elts) if isinstance(sl, ast.Tuple) else [sl]
+        if base == "Optional":
+            return _members(args[0]) + [ast.Constant(None)]
+        if base == "Union":
+            out: List[ast.AST] = []
+            for a in args:
+                out += _members(a)
+            return out
+    if isinstance(ann, ast.BinOp) and isinstance(ann.op, ast.BitOr):
+        return _members(ann.left) + _members(ann.right)
+    return [ann]
+
+
+def is_optional_value_annotation(ann: Optional[ast.AST]) -> bool:
+    """Optional[T] where T admits falsy *values* (0, 0.0, '', b'')."""
+    if ann is None:
+        return False
+    ms = _members(ann)
+    has_none = any(isinstance(m, ast.Constant) and m.value is None for m in ms)
+    has_value = any(isinstance(m, (ast.Name, ast.Attribute)) and
+                    ast.unparse(m).split(".")[-1] in _VALUE_TOKENS for m in ms)
+    return has_none and has_value
+
+
+def annotation_of(env: "TypeEnv", e: ast.AST, depth: int = 0) -> Optional[ast.AST]:
+    """Declared annotation (AST) of an expression, if it can be determined."""
+    prog, f = env.prog, env.f
+    if depth > 4:
+        return None
+    if isinstance(e, ast.NamedExpr):
+        return annotation_of(env, e.value, depth + 1)
+    if isinstance(e, ast.IfExp):
+        parts = [e.body, e.orelse]
+        none = [p for p in parts if isinstance(p, ast.Constant) and p.value is None]
+        rest = [p for p in parts if p not in none]
+        if rest:
+            a = annotation_of(env, rest[0], depth + 1)
+            if a is not None and none and not is_optional_value_annotation(a):
+                return ast.Subscript(ast.Name("Optional", ast.Load()), a, ast.Load())
+            return a
+        return None
+    if isinstance(e, ast.Name):
+        a = f.param_annotation(e.id)
+        if a is not None:
+            return a
+        defs = []
+        for x in walk_no_nested(f.node):
+            if isinstance(x, ast.AnnAssign) and isinstance(x.target, ast.Name) and \
+                    x.target.id == e.id:
+                return x.annotation
+            if isinstance(x, ast.Assign) and len(x.targets) == 1 and isinstance(
+                    x.targets[0], ast.Name) and x.targets[0].id == e.id:
+                defs.append(x.value)
+            if isinstance(x, ast.NamedExpr) and isinstance(x.target, ast.Name) and \
+                    x.target.id == e.id:
+                defs.append(x.value)
+        if len(defs) == 1:
+            return annotation_of(env, defs[0], depth + 1)
+        return None
+    if isinstance(e, ast.Attribute):
+        for ci in classes_of(env.type_of(e.value)):
+            fa = prog.field_annotation(ci, e.attr)
+            if fa is not None:
+                return fa[0]
+            m = prog.lookup(ci, e.attr)
+            if m is not None and (m.is_property or "cached_property" in m.decorators):
+                return m.node.returns
+        return None
+    if isinstance(e, ast.Call):
+        if isinstance(e.func, ast.Attribute) and e.func.attr == "get" and len(e.args) <= 1:
+            bt = annotation_of(env, e.func.value, depth + 1)
+            if bt is not None and isinstance(bt, ast.Subscript) and ast.unparse(
+                    bt.value).split(".")[-1] in ("Dict", "dict", "Mapping"):
+                sl = bt.slice
+                if isinstance(sl, ast.Tuple) and len(sl.elts) == 2:
+                    return ast.Subscript(ast.Name("Optional", ast.Load()), sl.elts[1], ast.Load())
+            if ast.unparse(e.func.value) in ("physical_value", "param_dict", "kwargs"):
+                return ast.parse("Optional[ParameterValue]", mode="eval").body
+        ft = env.type_of(e.func)
+        if ft is not None and ft[0] == "method":
+            return ft[1].node.returns
+        if isinstance(e.func, ast.Name):
+            g = prog.module_func(env.mod, e.func.id)
+            if g is not None:
+                return g.node.returns
+    return None
